@@ -245,7 +245,7 @@ Definition terminate_ok w force := terminate_spec isalive isalive_ok w force.
 Definition pty_terminate_ok w force := terminate_spec pty_isalive pty_isalive_ok w force.
 
 (** -- sequences of operations (close is covered by the correspondence and the real-kernel oracle, not by a theorem) ---- *)
-Definition no_close (o : lop) : bool := match o with OClose _ => false | _ => true end.
+Definition no_close (o : lop) : bool := match o with OClose _ | ODrop => false | _ => true end.
 
 Lemma env1_spec c e : (match e with EExit x => 0 <= x < 256 | ESignalled s => 1 <= s < 127 end) ->
   (alive c = false -> good_status (fate c)) ->
@@ -260,7 +260,7 @@ Qed.
 Theorem lstep_inv w o : Inv w -> wf_op o -> no_close o = true ->
   Inv (snd (lstep w o)) /\ fst (lstep w o) <> RaisePty 1.
 Proof.
-  intros HI Hwf Hnc. destruct o as [| |sig|force|force|e|]; cbn [lstep wf_op] in *; try discriminate.
+  intros HI Hwf Hnc. destruct o as [| |sig|force|force|e| |]; cbn [lstep wf_op] in *; try discriminate.
   6: { unfold io. destruct (s_closed (sp w) || negb (s_fd_valid (sp w))); cbn [fst snd]; (split; [exact HI | discriminate]). }
   - pose proof (isalive_ok w HI) as C. destruct (isalive w) as [[[|]| | | |] w']; try contradiction; cbn [fst snd].
     + destruct C as (-> & _). split; [exact HI | discriminate].
@@ -307,7 +307,7 @@ Proof.
   assert (R : forall w0, sp (copy_fields w) = sp w0 -> s_terminated (sp w0) = true /\ s_status (sp w0) = s_status (sp w) /\
                          s_exit (sp w0) = s_exit (sp w) /\ s_sig (sp w0) = s_sig (sp w)).
   { intros w0 <-. unfold copy_fields, set_sp; cbn. auto. }
-  destruct o as [| |sig|force|force|e|]; cbn [lstep no_close] in *; try discriminate; cbv zeta.
+  destruct o as [| |sig|force|force|e| |]; cbn [lstep no_close] in *; try discriminate; cbv zeta.
   6: { unfold io. destruct (s_closed (sp w) || negb (s_fd_valid (sp w))); cbn [snd]; auto. }
   - rewrite Q. cbn [snd]. now apply R.
   - unfold wait. rewrite P. cbn [snd]. now apply R.
@@ -471,14 +471,71 @@ Proof.
     split; [reflexivity|]. split; [now apply inv_fd_invalid|]. cbn. repeat split; auto.
 Qed.
 
+(** -- dropping the object: PtyProcess.__del__ = its close(force=True), errors swallowed; the spawn object's own fields are
+    not touched by anything ptyprocess does ------------------------------------------------------------------------------ *)
+Lemma pty_isalive_sp w : sp (snd (pty_isalive w)) = sp w.
+Proof.
+  unfold pty_isalive. destruct (t_terminated (pt w)); [reflexivity|]. destruct (reaped (ch w)); [reflexivity|].
+  destruct (alive (ch w)); reflexivity.
+Qed.
+
+Lemma pty_kill_sp w sig : sp (snd (send_kill pty_isalive w sig)) = sp w.
+Proof.
+  unfold send_kill. pose proof (pty_isalive_sp w) as P. destruct (pty_isalive w) as [[[|]| | | |] w']; cbn [snd] in *; exact P.
+Qed.
+
+Lemma pty_terminate_sp w force : sp (snd (terminate_with pty_isalive w force)) = sp w.
+Proof.
+  unfold terminate_with.
+  assert (STEP : forall sig (k : world -> outc * world), (forall v, sp (snd (k v)) = sp v) ->
+            forall v, sp (snd (match send_kill pty_isalive v sig with
+                               | (RNone, w1) => match pty_isalive w1 with
+                                                | (RBool false, w2) => (RBool true, w2)
+                                                | (RBool true, w2) => k w2
+                                                | r => r
+                                                end
+                               | r => r
+                               end)) = sp v).
+  { intros sig k Hk v. pose proof (pty_kill_sp v sig) as K. destruct (send_kill pty_isalive v sig) as [[[|]| | | |] w1]; cbn [snd] in *; try exact K.
+    pose proof (pty_isalive_sp w1) as A. destruct (pty_isalive w1) as [[[|]| | | |] w2]; cbn [snd] in *; try congruence. }
+  pose proof (pty_isalive_sp w) as P. destruct (pty_isalive w) as [[[|]| | | |] w0]; cbn [snd] in *; try exact P.
+  rewrite <- P. apply STEP. intros v. apply STEP. intros v1. apply STEP. intros v2.
+  destruct force; [|reflexivity]. apply STEP. reflexivity.
+Qed.
+
+Lemma pty_close_sp w force : sp (snd (pty_close w force)) = sp w.
+Proof.
+  unfold pty_close. destruct (t_closed (pt w)); [reflexivity|]. cbv zeta.
+  match goal with |- context[pty_isalive ?W] => set (w2 := W) end.
+  assert (S2 : sp w2 = sp w) by reflexivity.
+  pose proof (pty_isalive_sp w2) as A. destruct (pty_isalive w2) as [[[|]| | | |] w3]; cbn [snd set_pt sp] in *; try congruence.
+  pose proof (pty_terminate_sp w3 force) as T. unfold pty_terminate.
+  destruct (terminate_with pty_isalive w3 force) as [[[|]| | | |] w4]; cbn [snd set_pt sp] in *; congruence.
+Qed.
+
+(** C10: dropping the object, in any reachable state: the child is dead and reaped, the descriptor has been released exactly once
+    in total, PtyProcess is closed; the spawn object's own fields are as they were *)
+Theorem drop_spec w : Inv w ->
+  let w' := snd (drop w) in
+  Inv w' /\ dead w' /\ t_closed (pt w') = true /\ t_fd_open (pt w') = false /\ fd_closes w' = 1%nat /\ sp w' = sp w /\
+  (t_closed (pt w) = true -> w' = w).
+Proof.
+  intros HI. cbv zeta. unfold drop. cbn [snd]. pose proof (pty_close_spec w true HI) as P. pose proof (pty_close_sp w true) as S.
+  destruct (pty_close w true) as [[| | |n|] w']; try contradiction; cbn [snd] in *.
+  - destruct P as (P1 & P2 & P3 & _ & P5 & P6). pose proof P1 as (_ & _ & _ & _ & _ & _ & I7 & _). destruct (I7 P3) as [F _].
+    split; [exact P1|]. split; [exact P2|]. split; [exact P3|]. split; [exact F|]. split; [exact P6|]. split; [exact S|exact P5].
+  - destruct P as (_ & _ & P & _). discriminate.
+Qed.
+
 (** -- every sequence of operations, close included ------------------------------------------------------------- *)
 Theorem lstep_inv_all w o : Inv w -> wf_op o -> Inv (snd (lstep w o)) /\ fst (lstep w o) <> RaisePty 1.
 Proof.
   intros HI Hwf. destruct (no_close o) eqn:E; [now apply lstep_inv|].
-  destruct o as [| | | |force| |]; try discriminate. cbn [lstep].
-  pose proof (close_spec w force HI) as C. destruct (close w force) as [[| | |n|] w']; try contradiction; cbn [fst snd].
-  - split; [apply C | discriminate].
-  - destruct C as (-> & C & _). split; [exact C | discriminate].
+  destruct o as [| | | |force| | |]; try discriminate; cbn [lstep].
+  - pose proof (close_spec w force HI) as C. destruct (close w force) as [[| | |n|] w']; try contradiction; cbn [fst snd].
+    + split; [apply C | discriminate].
+    + destruct C as (-> & C & _). split; [exact C | discriminate].
+  - split; [apply (drop_spec w HI) | discriminate].
 Qed.
 
 Theorem steps_inv_all ops : forall w, Inv w -> Forall wf_op ops -> Inv (fold_left (fun w o => snd (lstep w o)) ops w).
@@ -546,7 +603,8 @@ Theorem status_stable_all w o : Inv w -> wf_op o -> s_terminated (sp w) = true -
   s_terminated (sp w') = true /\ s_status (sp w') = s_status (sp w) /\ s_exit (sp w') = s_exit (sp w) /\ s_sig (sp w') = s_sig (sp w).
 Proof.
   intros HI Hwf Hs. destruct (no_close o) eqn:E; [now apply status_stable|].
-  destruct o as [| | | |force| |]; try discriminate. cbn [lstep]. cbv zeta.
+  destruct o as [| | | |force| | |]; try discriminate; cbn [lstep]; cbv zeta.
+  2: { destruct (drop_spec w HI) as (_ & _ & _ & _ & _ & -> & _). auto. }
   pose proof HI as (_ & _ & _ & I4 & _). destruct (I4 Hs) as (Ht & B1 & B2 & B3).
   unfold close, pty_close. destruct (t_closed (pt w)) eqn:Ec.
   - rewrite isalive_dead by exact Ht. cbn. auto.
@@ -566,7 +624,7 @@ Qed.
 (** ... and keeps failing whatever is called afterwards: the descriptor number never becomes valid again *)
 Theorem fd_stays_invalid w o : Inv w -> wf_op o -> s_fd_valid (sp w) = false -> s_fd_valid (sp (snd (lstep w o))) = false.
 Proof.
-  intros HI Hwf Hf. destruct o as [| |sig|force|force|e|]; cbn [lstep].
+  intros HI Hwf Hf. destruct o as [| |sig|force|force|e| |]; cbn [lstep].
   - pose proof (isalive_spec w HI) as P. destruct (isalive w) as [[[|]| | | |] w']; try contradiction; cbn [snd].
     + now destruct P as (-> & _).
     + destruct P as (_ & _ & _ & _ & _ & _ & _ & _ & _ & _ & P). congruence.
@@ -582,4 +640,5 @@ Proof.
     + apply C.
   - cbn. exact Hf.
   - unfold io. destruct (s_closed (sp w) || negb (s_fd_valid (sp w))); exact Hf.
+  - destruct (drop_spec w HI) as (_ & _ & _ & _ & _ & -> & _). exact Hf.
 Qed.
